@@ -26,10 +26,10 @@ PROP = dict(
           "after a failed store a drawn detour reverts and re-stores the head before the retry; non-trivial = fault inside a store or revert; distinct = SHA-256 of the op list. "
           "Prune test: chains of 22-40 blocks, optional earlier prune, 1-byte or default batches, fault at every (quick: 4 drawn) committed write; "
           "plus 4 (thorough 60) drawn single staged writes failing; non-trivial = fault strictly inside the prune. "
-          "Single-write faults: 2 (Pebble / base: 1) drawn writes per script case, and in TestPropFailedWriteInsideOp all W writes (quick: at most 120) of one store / revert (preferred) / "
+          "Single-write faults: 1 drawn write per script case, and in TestPropFailedWriteInsideOp all W writes (quick: at most 120) of one store / revert (preferred) / "
           "set-L1-head / snapshot op on a fresh copy of the image the script prefix left, blocks of up to 3 transactions incl. L1 handlers."),
     assumptions=["memory backend image = crash image; on Pebble the image is a checkpoint of the real store (Pebble's WAL replay / recovery trusted)",
                  "pruning policy (which floor is chosen) is exercised in C16, not here"],
     # two runs = two sets of shard processes side by side (the script test alone takes most of the quick budget)
-    runs=[dict(run="^TestPropCrashAndFailedCommit"), dict(run="^Test(PropPruneInterrupted|PropFailedWriteInsideOp|Known)")],
+    runs=[dict(run="^TestPropCrashAndFailedCommit", timeout=dict(quick=2700)), dict(run="^Test(PropPruneInterrupted|PropFailedWriteInsideOp|Known)")],
 )
